@@ -5,7 +5,8 @@
 (* duplicates, list vs tuple and map vs object forms).                         *)
 EXTENDS StdlibRef, Json
 Fn == IOEnv.VFN
-LT == {TList(TNum), TList(TStr), TList(TList(TNum)), TList(TBool)}
+Mode == Env("VMODE", "call")
+LT == {TList(TNum), TList(TStr), TList(TList(TNum)), TList(TBool), TList(TObj([a |-> TStr, b |-> TNum]))}
 TT == {TTup(<<TNum, TStr>>), TTup(<<>>), TTup(<<TBool>>), TTup(<<TList(TStr), TNum>>)}
 MT == {TMap(TNum), TMap(TStr), TMap(TList(TStr))}
 OT == {TObj([a |-> TNum, b |-> TStr]), TObj([a |-> TBool]), TObj(<<>>)}
@@ -49,8 +50,11 @@ ArgLists ==
     [] Fn = "setsubtract" -> UNION {{<<x, y>> : x \in TakeN(Vals(t, W), 8), y \in TakeN(Vals(t, W), 8)} : t \in ST}
     [] Fn = "sethaselement" -> UNION {{<<s, x>> : s \in Vals(t, W), x \in Members_(t.e, W)} : t \in ST}
     [] OTHER -> {}
-ASSUME LET sq == SetToSeq(ArgLists) IN
-       ndJsonSerialize(IOEnv.VOUT, [i \in 1..Len(sq) |-> [k |-> "call", api |-> "fn:" \o Fn, xs |-> <<[none |-> TRUE]>>, a |-> sq[i], vs |-> <<>>]])
+WeakOfArgs(a) == UNION {{[a EXCEPT ![i] = w] : w \in (IF Thorough THEN Weak1(a[i], FALSE) ELSE TakeN(Weak1(a[i], FALSE), 5) \cup TakeN(Weak1(a[i], TRUE), 4))} : i \in 1..Len(a)}
+WBase == IF Thorough THEN ArgLists ELSE TakeN(ArgLists, 120)
+ASSUME LET sq == SetToSeq(IF Mode = "weak" THEN WBase ELSE ArgLists) IN
+       ndJsonSerialize(IOEnv.VOUT, [i \in 1..Len(sq) |-> [k |-> Mode, api |-> "fn:" \o Fn, xs |-> <<[none |-> TRUE]>>, a |-> sq[i],
+                                                            vs |-> IF Mode = "weak" THEN SetToSeq(WeakOfArgs(sq[i])) ELSE <<>>]])
        /\ PrintT(<<"GEN", Len(sq)>>)
 VARIABLE x
 Init == x = 0
